@@ -7,6 +7,7 @@ import (
 	"go/ast"
 	"go/token"
 	"go/types"
+	"os"
 	"sort"
 	"strconv"
 	"strings"
@@ -20,7 +21,7 @@ func (w *World) NewFnCtx(key string) (*FnCtx, error) {
 		return nil, fmt.Errorf("contract-not-applicable: no function %q in the loaded packages", key)
 	}
 	fc := &FnCtx{w: w, fn: fn, key: key, vals: map[ssa.Value]Val{}, outs: map[*ssa.BasicBlock][]edgeOut{},
-		modPreds: map[string][]modPred{}, kindCnt: map[string]int{}, paramEV: map[string]EV{}, loops: map[*ssa.BasicBlock]*loopInfo{}, blockIns: map[*ssa.BasicBlock][]Term{}, blockVias: map[*ssa.BasicBlock][]string{}, dropped: map[*Clause]bool{}}
+		modPreds: map[string][]modPred{}, kindCnt: map[string]int{}, paramEV: map[string]EV{}, loops: map[*ssa.BasicBlock]*loopInfo{}, blockIns: map[*ssa.BasicBlock][]Term{}, blockVias: map[*ssa.BasicBlock][]string{}, blockFroms: map[*ssa.BasicBlock][]*ssa.BasicBlock{}, ancCache: map[*ssa.BasicBlock]map[int]bool{}, dropped: map[*Clause]bool{}}
 	if fn.Pkg != nil {
 		fc.pkg = fn.Pkg.Pkg
 	} else if fn.Parent() != nil {
@@ -584,9 +585,12 @@ func (fc *FnCtx) obligeNoAssume(kind string, goal Term, text string, tags []stri
 // chains from b. Proving a goal once per incoming edge (with that edge assumed taken) keeps each query small: the merged
 // state constants collapse to the values of one path.
 func (fc *FnCtx) splitConds(b *ssa.BasicBlock) []Term {
+	fc.lastChain = nil
 	for i := 0; i < 8 && b != nil; i++ {
+		fc.lastChain = append(fc.lastChain, b)
 		if cs := fc.blockIns[b]; len(cs) > 3 {
 			fc.lastVias = fc.blockVias[b]
+			fc.lastFroms = fc.blockFroms[b]
 			return cs
 		}
 		var np *ssa.BasicBlock
@@ -620,11 +624,64 @@ func (fc *FnCtx) obligeSplit(b *ssa.BasicBlock, kind string, goal Term, text str
 		fc.reach = and(saveR, c)
 		fc.obligeNoAssumeRaw(kind, goal, text, tags, label)
 		if len(fc.obls) > 0 && i < len(fc.lastVias) {
-			fc.obls[len(fc.obls)-1].Via = fc.lastVias[i]
+			o := fc.obls[len(fc.obls)-1]
+			o.Via = fc.lastVias[i]
+			if i < len(fc.lastFroms) && fc.lastFroms[i] != nil && !noSlice {
+				o.Slice, o.SliceKey = fc.sliceFor(fc.lastFroms[i], fc.lastChain)
+			}
 		}
 	}
 	fc.reach = saveR
 	fc.assume(goal)
+}
+
+var noSlice = os.Getenv("GOVC_NOSLICE") != ""
+
+// ancestors returns the indices of the blocks from which b is reachable without taking a back edge (b included).
+func (fc *FnCtx) ancestors(b *ssa.BasicBlock) map[int]bool {
+	if a, ok := fc.ancCache[b]; ok {
+		return a
+	}
+	a := map[int]bool{}
+	var dfs func(x *ssa.BasicBlock)
+	dfs = func(x *ssa.BasicBlock) {
+		if a[x.Index] {
+			return
+		}
+		a[x.Index] = true
+		for _, p := range x.Preds {
+			if !fc.isBackEdge(p, x) {
+				dfs(p)
+			}
+		}
+		// an unrolled loop is straight-line code: a later iteration depends on every block of the loop
+		for _, li := range fc.loopList {
+			if li.lc != nil && li.lc.Unroll > 0 && li.blocks[x] {
+				for y := range li.blocks {
+					dfs(y)
+				}
+			}
+		}
+	}
+	dfs(b)
+	fc.ancCache[b] = a
+	return a
+}
+
+// sliceFor: the blocks whose facts can matter for a goal proved under "the edge from `from` into the merge block was taken":
+// the ancestors of from and the single-predecessor chain between the merge block and the block of the goal.
+func (fc *FnCtx) sliceFor(from *ssa.BasicBlock, chain []*ssa.BasicBlock) (map[int]bool, string) {
+	a := fc.ancestors(from)
+	out := make(map[int]bool, len(a)+len(chain))
+	for k := range a {
+		out[k] = true
+	}
+	key := fmt.Sprintf("e%d", from.Index)
+	for _, c := range chain {
+		out[c.Index] = true
+		key += fmt.Sprintf(".%d", c.Index)
+	}
+	return out, key
 }
 
 func (fc *FnCtx) backEdge(li *loopInfo, st *State, cond Term) {
@@ -952,6 +1009,8 @@ func (fc *FnCtx) unrollLoop(li *loopInfo, order []*ssa.BasicBlock) {
 }
 
 func (fc *FnCtx) blockWith(b *ssa.BasicBlock, given []edgeOut, unrolled bool) {
+	fc.curBlock = b
+	defer func() { fc.curBlock = nil }()
 	// gather incoming edges (non-back)
 	var ins []edgeOut
 	if given != nil {
@@ -993,6 +1052,11 @@ func (fc *FnCtx) blockWith(b *ssa.BasicBlock, given []edgeOut, unrolled bool) {
 		}
 		fc.blockIns[b] = cs
 		fc.blockVias[b] = vias
+		var froms []*ssa.BasicBlock
+		for _, e := range ins {
+			froms = append(froms, e.from)
+		}
+		fc.blockFroms[b] = froms
 	}
 	if li, ok := fc.loops[b]; ok && !unrolled {
 		fc.loopHead(li, fc.st, fc.reach)
